@@ -5,3 +5,4 @@ import BV.C16.Bech32
 import BV.C16.Address
 import BV.C16.Keys
 import BV.C16.Taproot
+import BV.C16.Base58Algo
